@@ -1848,6 +1848,9 @@ func cdcLive(h *cdcH, base string, g *cdcGen) (*cdcResult, error) {
 		h.ingested(f.ID)
 		cdcWait(30*time.Second, func() bool { return int64(old.svc.VerifWritesToBatcher()) >= h.cnt[f.ID].inKept.Load() })
 		old.svc.Stop()
+		// the restart marker separates the two lives in the trace: the old store (its FSM may still be applying an
+		// entry as a follower) must be down before it is written
+		f.Stop()
 		emit("", "c.restart", "node", f.ID, "snap", 0)
 		h.cnt[f.ID].resetPipeline()
 		nf, err := f.Restart()
